@@ -3,7 +3,7 @@ C19 — blocklisted addresses and passive mode are honoured on every path (serve
 -/
 import DhtVerif.Model.Server
 import DhtVerif.Lemmas.C19
-import DhtVerif.Props.SourceTrees2
+import DhtVerif.Props.ST2Filter
 namespace Dht
 
 /-- A datagram from a blocked source has no effect at all: no output, no
